@@ -261,11 +261,18 @@ def run_shard(ctx):
     for _ in range(ctx.share(ctx.params.get("n_chains", 0))):
         if ctx.out_of_time():
             break
+        cseed = ctx.rng.randrange(1 << 40)
         try:
             with ctx.watchdog(120):
-                chain_case(ctx, pydsdl, ctx.rng, mon)
+                chain_case(ctx, pydsdl, ctx.rng, mon, seed=cseed)
         except CaseTimeout:
             ctx.inconclusive_case("watchdog (deep chain)")
+        except AssertionError as ex:
+            mon.steps_off()
+            ctx.violation("C01/internal-assert", "pydsdl's own self-check failed on a deep chain: %r" % (ex,), {"chain": cseed, "depth": None})
+        except Exception as ex:  # noqa
+            mon.steps_off()
+            ctx.violation("C01/exception", "%r on a deep chain" % (ex,), {"chain": cseed, "depth": None})
     n_small = ctx.share(ctx.params["n_small"])
     n_large = ctx.share(ctx.params["n_large"])
     rng = ctx.rng
